@@ -46,7 +46,7 @@ let handle op args = match op, args with
   | "psingle", [hs; vox; be; step; shape; w; h; lens] ->
     let full = bytes_of_hex h in
     let hs = z_of_string hs and vox = z_of_string vox and w = z_of_string w in
-    let shape = zlist_of_string shape and step = bool_of_string step in
+    let shape = zlist_of_string shape and step = z_of_string step in
     let run p = decode_partial (decode_single false hs vox (z_of_int 0) (bool_of_string be) p <> None) p step shape w vox in
     (match run full with
      | None -> "err full file does not give the slice"
@@ -54,7 +54,7 @@ let handle op args = match op, args with
   | "pimg", [off; step; shape; w; h; lens] ->
     let full = bytes_of_hex h in
     let off = z_of_string off and w = z_of_string w in
-    let shape = zlist_of_string shape and step = bool_of_string step in
+    let shape = zlist_of_string shape and step = z_of_string step in
     let run p = decode_partial (p <> []) p step shape w off in
     (match run full with
      | None -> "err full file does not give the slice"
@@ -62,7 +62,7 @@ let handle op args = match op, args with
   | "pmgh", [hr; doff; ftr; step; shape; w; h; lens] ->
     let full = bytes_of_hex h in
     let hr = z_of_string hr and doff = z_of_string doff and ftr = z_of_string ftr and w = z_of_string w in
-    let shape = zlist_of_string shape and step = bool_of_string step in
+    let shape = zlist_of_string shape and step = z_of_string step in
     let run p = decode_partial (decode_mgh false hr doff (z_of_int 0) ftr p <> None) p step shape w doff in
     (match run full with
      | None -> "err full file does not give the slice"
@@ -89,5 +89,36 @@ let handle op args = match op, args with
     (match tck_lazy_retry b k full with
      | Some (Some exp :: _) -> sweep (lens_of lens full) full (fun p -> classify exp (tck_lazy_retry b k p))
      | _ -> "err full file does not load")
+  (* the same through a compressed stream that RAISES when it runs out: lens = how many plain bytes
+     the truncated stream delivers at each cut *)
+  | "psingleR", [hs; vox; be; step; shape; w; h; lens] ->
+    let full = bytes_of_hex h in
+    let hs = z_of_string hs and vox = z_of_string vox and w = z_of_string w in
+    let shape = zlist_of_string shape and step = z_of_string step in
+    let run a = decode_partial_raising (decode_single true hs vox (z_of_int 0) (bool_of_string be) (take_n a full) <> None)
+        full (z_of_int a) step shape w vox in
+    (match run (List.length full) with
+     | None -> "err full file does not give the slice"
+     | Some expected ->
+       let b = Buffer.create 256 in
+       List.iter (fun a -> Buffer.add_char b (cls expected (run a))) (lens_of lens full); "ok " ^ Buffer.contents b)
+  | "pimgR", [off; step; shape; w; h; lens] ->
+    let full = bytes_of_hex h in
+    let off = z_of_string off and w = z_of_string w in
+    let shape = zlist_of_string shape and step = z_of_string step in
+    let run a = decode_partial_raising (a > 0) full (z_of_int a) step shape w off in
+    (match run (List.length full) with
+     | None -> "err full file does not give the slice"
+     | Some expected ->
+       let b = Buffer.create 256 in
+       List.iter (fun a -> Buffer.add_char b (cls expected (run a))) (lens_of lens full); "ok " ^ Buffer.contents b)
+  (* the SPM .mat member: names (M|mat|other, comma separated) and sizes of its MATLAB-4 records;
+     one digit per cut: 0 raises, 1 header affine, 2 affine from 'mat', 3 affine from 'M' *)
+  | "spmmat", [names; sizes; lens] ->
+    let names = List.map (function "M" -> VM | "mat" -> Vmat | _ -> Vother) (String.split_on_char ',' names) in
+    let sizes = zlist_of_string sizes in
+    let b = Buffer.create 256 in
+    List.iter (fun n -> Buffer.add_string b (string_of_int (int_of_z (spm_mat_class names sizes n)))) (zlist_of_string lens);
+    "ok " ^ Buffer.contents b
   | _ -> "err driver:badop"
 let () = run_lines handle
